@@ -1041,7 +1041,7 @@ class Interp:
                 if cur is None:
                     continue
                 total += 1
-                if total > MAX_VISITS * 4:
+                if total > max(MAX_VISITS * 4, self.unroll * 64):
                     raise AnalysisLimit("too many block visits in %s" % body.path)
                 if bb in heads:
                     prev = seen_in.get(bb)
